@@ -1,5 +1,6 @@
 import Fpdec.Lemmas.Text
 import Fpdec.Model.Parser
+import Fpdec.Lemmas.Parse
 import Fpdec.Props.C07_Sites
 
 /-!
@@ -53,6 +54,11 @@ theorem roundtrip_of_parser (hparse : FromStrSpec) (prof : Profile) (d : Dec) (h
     cases e with
     | error err => rw [hr] at h; exact absurd h (by simp)
     | ok v => rw [hr] at h; simp only at h; rw [h]
+
+/-- `Decimal::from_str(d.to_string()) == Ok(d)`, identical coefficient and fractional digit count, every profile -/
+theorem roundtrip (prof : Profile) (d : Dec) (hd : Dom d) :
+    fromStr prof (Spec.render d.coeff d.nfrac) = .ok (.ok d) :=
+  roundtrip_of_parser (fun prof s hb hl => fromStr_spec prof s hb hl) prof d hd
 
 /-! ### non-vacuity -/
 example : toStringDec Profile.dev ⟨-5, 3⟩ = .ok [45, 48, 46, 48, 48, 53] := by decide   -- "-0.005"
